@@ -1510,6 +1510,23 @@ func Program(rt *rapid.T, p Profile) (*oracle.Program, *Meta) {
 		localFn = "localType"
 		fmt.Fprintf(&top, "func localType(a int) int {\n\ttype %s struct {\n\t\tQ int\n\t\tR string\n\t}\n\tv := &%s{Q: a, R: \"loc\"}\n\tv.Q += len(v.R)\n\tw := &%s{}\n\tw.R = v.R + \"!\"\n\treturn v.Q*10 + len(w.R)\n}\n\n", tn, tn, tn)
 	}
+	// package-level functions that carry the name of a builtin function (legal Go: the package scope shadows the
+	// universe scope, wherever in the package the declaration stands); they behave unlike the builtins
+	shadowCall := ""
+	if rx.Chance(rt, "shadowbuiltin", 1, 4) {
+		g.meta.feat("shadowbuiltin")
+		switch rx.Uniform(rt, 3, "whichbuiltin") {
+		case 0:
+			top.WriteString("func println(a int) int {\n\treturn a*100 + 1\n}\n\nfunc useShadow(a int) int {\n\treturn println(a) + 2\n}\n\n")
+			shadowCall = "fmt.Println(\"shadow\", println(4), useShadow(bi))"
+		case 1:
+			top.WriteString("func max(a int, b int) int {\n\tif a > b {\n\t\treturn a + 1000\n\t}\n\treturn b + 2000\n}\n\nfunc useShadow(a int) int {\n\treturn max(a, 3) + 2\n}\n\n")
+			shadowCall = "fmt.Println(\"shadow\", max(4, bi), useShadow(bi))"
+		default:
+			top.WriteString("func min(xs []int) int {\n\treturn len(xs) + 500\n}\n\nfunc print(s string) string {\n\treturn \"<\" + s + \">\"\n}\n\nfunc useShadow(a int) int {\n\treturn min([]int{a, a}) + len(print(\"ab\"))\n}\n\n")
+			shadowCall = "fmt.Println(\"shadow\", min([]int{1, 2, 3}), print(bs), useShadow(bi))"
+		}
+	}
 	// init and Main
 	var mainBody strings.Builder
 	g.sb = &mainBody
@@ -1520,6 +1537,9 @@ func Program(rt *rapid.T, p Profile) (*oracle.Program, *Meta) {
 	g.line("fmt.Println(\"start\", CA, CB, CC, limit)")
 	if localFn != "" {
 		g.line("fmt.Println(\"local\", localType(bi))")
+	}
+	if shadowCall != "" {
+		g.line("%s", shadowCall)
 	}
 	g.stmts(1 << 20)
 	if localFn != "" {
